@@ -32,6 +32,17 @@ def run(tier):
             if rng.random() < 0.08:
                 out.append(rng.choice(gen.SPLIT))
         texts.append(" ".join(out))
+    # blocks of every length around the partition threshold whose only store is the last / the first / the k-th instruction, and with two stores
+    for n in range(16, 34):
+        chain = ["PUSH1 0x1"] + ["PUSH1 0x1", "ADD"] * 20
+        for st in ("PUSH1 0x40 MSTORE", "PUSH1 0x2 SSTORE", "PUSH1 0x40 MSTORE8"):
+            body = chain[:max(1, n - 2) | 1]                       # an odd number of tokens: one value on the stack
+            texts.append(" ".join(body) + " " + st)                                     # the store is the last instruction
+            texts.append("PUSH1 0x7 " + st + " " + " ".join(body))                      # ... the first
+            texts.append(" ".join(body[:len(body) // 2 | 1]) + " DUP1 " + st + " " + " ".join(body[1:len(body) // 2 | 1]))   # ... in the middle
+            texts.append(" ".join(body) + " DUP1 " + st + " " + st)                     # two stores at the end
+            texts.append("PUSH1 0x9 " + " ".join(body[:-2]) + " " + st)                 # a value that stays below the chain, store last
+            texts.append("PUSH1 0x9 PUSH1 0x7 " + st + " " + " ".join(body[:-2]))       # ... store first
     osets = [["-greedy"], ["-greedy", "-storage"], ["-greedy", "-partition"]]
     tasks = [{"kind": "split", "text": t, "opts": o} for t in texts for o in osets]
     groups = {}
